@@ -239,12 +239,10 @@ func (n *cnNet) buildTx(spec *cnTxSpec, rng *rand.Rand) ([]byte, error) {
 		tx = registry.NewRegisterNodeTx(spec.Nonce, fee, sn)
 	case "regruntime":
 		// spec.To names the runtime (R0, R1); the signer is the owning entity
-		var ei int
-		fmt.Sscanf(spec.Signer, "E%d", &ei)
 		rt := &registry.Runtime{
 			Versioned:       cbor.NewVersioned(registry.LatestRuntimeDescriptorVersion),
 			ID:              runtimeID(spec.To),
-			EntityID:        n.vals[ei].ent.ID,
+			EntityID:        acct.signer.Public(), // the signer's own entity (an entity of the genesis or a user-run one)
 			Kind:            registry.KindCompute,
 			Executor:        registry.ExecutorParameters{GroupSize: 1, GroupBackupSize: 0, AllowedStragglers: 0, RoundTimeout: 3, MaxMessages: 32},
 			TxnScheduler:    registry.TxnSchedulerParameters{BatchFlushTimeout: time.Second, MaxBatchSize: 1, MaxBatchSizeBytes: 1024, ProposerTimeout: 5 * time.Second},
